@@ -457,11 +457,23 @@ def do_unit(unit, ucfg, repo, wdir, tier, prop):
             R["vacuity"]["note"] = "not evaluated: the unit did not get through the front end, so the probes were never checked"
         elif missing:
             # a probe that does not fail means a contradictory precondition / invariant (or an unreachable loop)
-            rl = any("Resource limit" in str(d.get("message", "")) for d in vv["diags"])
-            if rl:
-                R["undecided"].append({"message": "vacuity: probe run hit the resource limit, so these probes are UNDETERMINED (not proved): " + "; ".join(p["what"] for p in missing)})
-            else:
-                R["undecided"].append({"message": "vacuity: assert(false) was PROVED at: " + "; ".join(p["what"] for p in missing)})
+            # ... unless the solver gave up on that function: "could not prove false within the budget" is not "proved false".
+            # Such probes are recorded as undetermined (evidence) and do not make the unit undecided; a probe that is missing
+            # in a function the solver finished is a real vacuity finding.
+            with open(vsrc) as f_:
+                vlines = f_.readlines()
+            rl_fns = set()
+            for d in vv["diags"]:
+                if "Resource limit" in str(d.get("message", "")):
+                    for sp in d.get("spans", []):
+                        if sp.get("is_primary"):
+                            rl_fns.add(enclosing_fn_name(vlines, sp["line_start"]))
+            undet = [p for p in missing if enclosing_fn_name(vlines, p["line"]) in rl_fns]
+            proved = [p for p in missing if p not in undet]
+            if undet:
+                R["vacuity"]["undetermined_rlimit"] = [p["what"] for p in undet]
+            if proved:
+                R["undecided"].append({"message": "vacuity: assert(false) was PROVED at: " + "; ".join(p["what"] for p in proved)})
     if R["undecided"]:
         R["status"] = "undecided"
     # thorough tier: re-run the unit under two more Z3 seeds (derived from VERIF_SEED). A function that verifies under the
